@@ -1132,7 +1132,7 @@ func CheckC14(c *C14Case, st *Stats) error {
 
 func init() {
 	Register("C14",
-		"lists and objects of 0-16 (occasionally 33-130) elements, built through drawn construction routes (Add, NewList, NewListFrom, NewListOf+Replace, Concat, SubList, typed-slice origin + Insert, grow-and-shrink; objects optionally from a map[string]int; lists of scalars in one case of four from the parser, floats spelled 3.50 / 3.5e0 / 35E-1), whose kind sequence is drawn from an alphabet of 1-4 of the seven kinds with repetition (several elements of one kind interleaved with others, kinds absent, empty container); element values are pairwise distinct and encode their position (the first element of each scalar kind may be the zero value; in one case of four some floats are +Inf, -Inf or NaN). Views are also used from inside a callback of another view of the same list. For every kind X of {object, list, string, bool, int, float}: XSlice, ForEachX (callback log), MapXs (injective tag; in half of the cases a second pass whose callback returns nil for every / about half of the values, the value itself, or the zero value of the kind - each result must be stored as returned, nil included), FilterXs (predicates all/none/alternate/by value; identity for containers), ReduceXs with non-commutative folds, AllXs and AllNumeric, plus the untyped ForEach/ForEachValue/Map/MapValues/Filter/Reduce (index and value, in order, once); for objects ForEach/ForEachValue/ForEachX as multisets and Map/MapValues/MapXs storing under the same key and nothing else. The method table is compared with the interface by reflection (unknown view methods are reported as unclassified). Non-trivial = some kind occurs at least twice with an element of another kind between. Distinct = distinct FNV-64a hash of the case JSON.",
+		"lists and objects of 0-16 (occasionally 33-130) elements, built through drawn construction routes (Add, NewList, NewListFrom, NewListOf+Replace, Concat, SubList, typed-slice origin + Insert, grow-and-shrink; objects optionally from a map[string]int; lists of scalars in one case of four from the parser, floats spelled 3.50 / 3.5e0 / 35E-1), whose kind sequence is drawn from an alphabet of 1-4 of the seven kinds with repetition (several elements of one kind interleaved with others, kinds absent, empty container); element values are pairwise distinct and encode their position (the first element of each scalar kind may be the zero value; in one case of four some floats are +Inf, -Inf or NaN). Views are also used from inside a callback of another view of the same list. For every kind X of {object, list, string, bool, int, float}: XSlice, ForEachX (callback log), MapXs (injective tag; in half of the cases a second pass whose callback returns nil for every / about half of the values, the value itself, or the zero value of the kind - each result must be stored as returned, nil included), FilterXs (predicates all/none/alternate/by value; identity for containers), ReduceXs with non-commutative folds, AllXs and AllNumeric, plus the untyped ForEach/ForEachValue/Map/MapValues/Filter/Reduce (index and value, in order, once); for objects ForEach/ForEachValue/ForEachX as multisets and Map/MapValues/MapXs storing under the same key and nothing else. The method table is compared with the interface by reflection (unknown view methods are reported as unclassified). Non-trivial = some kind occurs at least twice with an element of another kind between. Distinct = distinct FNV-64a hash of the case JSON. One case in 200 is a list of 1025-8191 elements of one scalar kind in which at most one element, 0-4 positions before the end, has another kind.",
 		GenC14, CheckC14)
 }
 
